@@ -25,6 +25,7 @@ func propC17() *Property {
 			{ID: "R17.1", Floor: 3, Text: "assembly routines and their installation", Run: r17_1},
 			{ID: "R17.2", Floor: 4, Text: "validation dominates encode/decode; Unmarshal validates low-entropy metadata before storing", Run: r17_2},
 			{ID: "R17.3", Floor: 12, Text: "parameter table, rotation set/direction, encoded length law", Run: func(c *RC) { ruleLowEntropyTables(c); ruleRotation(c); r17_3len(c) }},
+			{ID: "R17.5", Floor: 1, Text: "no buffer taken from a sync.Pool is handed out of the function that puts it back (an encoded payload would be overwritten by a concurrent encoder before its caller copies it)", Run: r17_5},
 			{ID: "R17.4", Floor: 9, Text: "decoder padding acceptance table", Run: r17_4},
 		},
 	}
@@ -529,5 +530,105 @@ func r17_4(c *RC) {
 		default:
 			c.Bad(key, at, "first chunk with %s padding: accept=%v reject=%v (want accept=%v)", pad.name, acc, rej, want)
 		}
+	}
+}
+
+
+// r17_5: ownership of pooled buffers in the protocol code. A function that
+// returns (a slice of) an object it got from sync.Pool.Get and also Puts that
+// object back - deferred or not - hands its caller memory that the next Get
+// may give to another goroutine: two encoders then write one buffer and a mix
+// of two encodings goes on the wire (seed C17h).
+func r17_5(c *RC) {
+	p := c.P
+	n := 0
+	for _, fn := range p.Funcs("pkg/protocol", "pkg/cipher", "pkg/socks5", "pkg/mathext", "pkg/replay", "apis") {
+		var gets []*ssa.Call
+		var puts []ssa.CallInstruction
+		instrs(fn, func(_ *ssa.BasicBlock, _ int, in ssa.Instruction) {
+			cl, ok := in.(ssa.CallInstruction)
+			if !ok {
+				return
+			}
+			switch calleeID(cl) {
+			case "(*sync.Pool).Get":
+				if c2, ok := in.(*ssa.Call); ok {
+					gets = append(gets, c2)
+				}
+			case "(*sync.Pool).Put":
+				puts = append(puts, cl)
+			}
+		})
+		for _, g := range gets {
+			n++
+			key := "pooled-buffer-stays-inside@" + fnName(fn)
+			// everything that may alias the pooled object
+			alias := map[ssa.Value]bool{g: true}
+			for changed := true; changed; {
+				changed = false
+				instrs(fn, func(_ *ssa.BasicBlock, _ int, in ssa.Instruction) {
+					v, ok := in.(ssa.Value)
+					if !ok || alias[v] {
+						return
+					}
+					hit := false
+					switch x := in.(type) {
+					case *ssa.TypeAssert:
+						hit = alias[x.X]
+					case *ssa.UnOp:
+						hit = alias[x.X]
+					case *ssa.Slice:
+						hit = alias[x.X]
+					case *ssa.ChangeType:
+						hit = alias[x.X]
+					case *ssa.MakeInterface:
+						hit = alias[x.X]
+					case *ssa.Phi:
+						for _, e := range x.Edges {
+							if alias[e] {
+								hit = true
+							}
+						}
+					case *ssa.Call:
+						if b, ok := x.Call.Value.(*ssa.Builtin); ok && b.Name() == "append" && len(x.Call.Args) > 0 {
+							hit = alias[x.Call.Args[0]]
+						}
+					}
+					if hit {
+						alias[v] = true
+						changed = true
+					}
+				})
+			}
+			putBack := false
+			for _, pc := range puts {
+				if len(pc.Common().Args) > 1 && alias[pc.Common().Args[1]] {
+					putBack = true
+				}
+			}
+			var escapes ssa.Instruction
+			instrs(fn, func(_ *ssa.BasicBlock, _ int, in ssa.Instruction) {
+				if r, ok := in.(*ssa.Return); ok {
+					for i := range r.Results {
+						for _, l := range Leaves(retVal(r, i), nil) {
+							if alias[l] {
+								escapes = in
+							}
+						}
+						if alias[retVal(r, i)] {
+							escapes = in
+						}
+					}
+				}
+			})
+			if putBack && escapes != nil {
+				c.Bad(key, escapes.Pos(), "%s returns memory of an object it took from a sync.Pool and also puts back: the caller's slice is overwritten as soon as another goroutine gets the same object (for the low-entropy encoder: two connections encoding at once put a mix of two payloads on the wire)", fnName(fn))
+			} else {
+				c.OKH(key, g.Pos(), "the pooled object is %s", map[bool]string{true: "put back and not returned", false: "not put back by this function"}[putBack])
+			}
+		}
+	}
+	if n == 0 {
+		c.OK("pooled-buffer-stays-inside", token.NoPos, "the protocol, cipher and socks5 code takes no buffer from a sync.Pool")
 	}
 }
